@@ -448,6 +448,14 @@ static void after_op(World &w, const Op &op, int rc) {
             // C08 is about calls rejected on a writable file; on a ReadOnly file every mutator is refused by mode (C09)
             w.cnt.inc("rejected_calls");
             if (!node_equal(w.last, doc, where)) w.fail("C08.no-trace", "call threw but the observable state changed at " + where);
+            else if (w.lane_prop == "C08" && !w.last_upd.empty()) {
+                // ... and it must not have moved a modification time either (the simulated clock makes that visible: it is usually
+                // minutes or days past the time the entity was last written)
+                std::map<std::string, std::string> now;
+                observe_updated(w.f, now);
+                w.cnt.inc("rejected_calls.updated_at_compared");
+                for (auto &kv : w.last_upd) { auto it = now.find(kv.first); if (it != now.end() && it->second != kv.second) { w.fail("C08.no-trace", "call threw but updated_at of " + kv.first + " moved from " + kv.second + " to " + it->second); break; } }
+            }
         }
         if (w.mode == 1 && rc == 0 && op_modifies(op.kind) && !node_equal(w.last, doc, where)) {
             w.fail("C09.ro-mutator-throws", "mutating call returned normally on a ReadOnly file and the observable state changed at " + where);
@@ -517,6 +525,7 @@ static void after_op(World &w, const Op &op, int rc) {
     if (w.failed()) return;
     w.state_hashes.insert(node_hash(doc, true));
     w.last = doc; w.have_last = true;
+    if (w.lane_prop == "C08" && w.mode == 0) observe_updated(w.f, w.last_upd);
 }
 
 int World::exec(const Op &op) {
